@@ -142,7 +142,12 @@ func dumpGo(v interface{}, b []byte) []byte {
 	u32 := func(b []byte, n int) []byte { return binary.BigEndian.AppendUint32(b, uint32(n)) }
 	type kv struct{ k, v []byte }
 	emitMap := func(b []byte, sub byte, ps []kv) []byte {
-		sort.Slice(ps, func(i, j int) bool { return bytes.Compare(ps[i].k, ps[j].k) < 0 })
+		sort.Slice(ps, func(i, j int) bool {
+			if c := bytes.Compare(ps[i].k, ps[j].k); c != 0 {
+				return c < 0
+			}
+			return bytes.Compare(ps[i].v, ps[j].v) < 0 // equal container keys are distinct (pointer) keys of the Go map
+		})
 		b = append(b, 7, sub)
 		b = u32(b, len(ps))
 		for _, p := range ps {
@@ -573,6 +578,7 @@ func genC01Cast(r *rng) {
 			break
 		}
 	}
+	permuteStructKeys(g, mv)
 	// the map alone, and the map below a list / a struct
 	tops := []*Val{mv, {T: &Ty{K: thrift.LIST, Elem: mt}, Elems: []*Val{mv}},
 		{T: &Ty{K: thrift.STRUCT, Name: "CT", Fields: []*Fld{{ID: 7, Name: "m", T: mt}}}, FIDs: []int16{7}, Fields: []*Val{mv}}}
@@ -605,5 +611,33 @@ func genC01Cast(r *rng) {
 				out.emit(105, f...)
 			}
 		}
+	}
+}
+
+// maps keyed by structs get a second key holding the SAME fields in another wire order (a different encoding, the same
+// Go map content): such keys are two entries of the value and two (pointer) keys of the Go map
+func permuteStructKeys(g *tgen, v *Val) {
+	for _, f := range v.Fields {
+		permuteStructKeys(g, f)
+	}
+	for _, e := range v.Elems {
+		permuteStructKeys(g, e)
+	}
+	if v.T.K != thrift.MAP || v.T.Key.K != thrift.STRUCT || !g.r.chance(60) {
+		return
+	}
+	for _, k := range v.Keys {
+		n := len(k.FIDs)
+		if n < 2 {
+			continue
+		}
+		c := &Val{T: k.T}
+		for i := n - 1; i >= 0; i-- {
+			c.FIDs = append(c.FIDs, k.FIDs[i])
+			c.Fields = append(c.Fields, k.Fields[i])
+		}
+		v.Keys = append(v.Keys, c)
+		v.Elems = append(v.Elems, g.genValue(v.T.Elem, 2))
+		return
 	}
 }
